@@ -183,6 +183,7 @@ func (n *node) start(snapshot []byte) {
 			n.errCh <- err
 		}()
 		// Run node
+		verifHook("node.run", n.et.Task.ID, n.Name())
 		err = n.runF(snapshot)
 	}()
 }
